@@ -102,6 +102,13 @@ def run(ctx):
             comb = [t for t in subterms(ua) if t.op == "call" and B.cname(t) == "vsss_rs::combine_shares_group"]
             ok = ok and bool(comb) and B.peel(comb[0].a[1][0]).op == "param" and B.peel(comb[0].a[1][0]).a[1] == "shares"
         ctx.ob("E4.shares", u.key, ok, "decryption with shares requires len(shares) >= 2 and combines the whole slice", where=where(u))
+        # what decrypt returns is what unseal_with_shares returns (no filtering of the opened message afterwards)
+        if dec:
+            gr = strip_sites(ev.ret)
+            alts = list(gr.a[0]) if gr.op == "phi" else [gr]
+            dv = strip_sites(dec[0].value)
+            bad = [show(a_, 3) for a_ in alts if a_ != dv and not (a_.op == "call" and B.cname(a_) == "CtOption::<T>::new" and len(a_.a[1]) == 2 and G.formula(a_.a[1][1], P) == G.FALSE)]
+            ctx.ob("E6.pass", u.key + "/result", not bad, "unseal_with_shares returns the result of decrypt itself (or a constant rejection)%s" % ("" if not bad else "; other results: %s" % bad[:2]), where=where(u, dec[0].bb))
         cts = [c for c in R.ctoption_sites(P, u)]
         ctx.ob("E4.shares", u.key + "/reject", any(G.formula(c[2], P) == G.FALSE for c in cts), "fewer than two shares yield a constant-0 option", where=where(u))
     d = ctx.need_fn("E6.combine", "SignCryptCiphertext<C>::decrypt_with_shares")
